@@ -42,6 +42,8 @@ def cases(tier, seed):
         for b in M.AA:
             yield {"s": a + b, "kind": "pair"}
     yield {"s": "", "kind": "sweep", "count": 700 if tier == "quick" else 2500}
+    for w in gen.CODE_WORDS + ["K" * 301 + "E" * 300 + "G" * 900, "Q" * 1500 + "K", "GS" * 600 + "D", "E" * 500 + "K" * 501 + "S" * 1200]:
+        yield {"s": w, "kind": "random", "o": 13}
     for w in ["ALA", "MET", "GLYGLY", "METSERLYS", "HISTHRVALALA", "TYRILEPHEASN", "SERMETLYS", "LAA", "README", "ASP", "LYSARG"]:
         yield {"s": w, "kind": "random", "o": 11}
     rng = gen.sub_rng(seed, ID)
